@@ -30,6 +30,7 @@ RETHROWN = ("str", "dbl", "flt", "quad", "struct", "arr", "ref")
 class Fn:
     def __init__(self, fid, ret, meth, params, statics, fam):
         self.fid, self.ret, self.meth, self.params, self.statics, self.fam = fid, ret, meth, params, statics, fam
+        self.via = 1 if meth else 0           # 2 / 3: only ever called through a function pointer
         # params: list of (name, kind, default-or-None), WITHOUT the receiver; params[0] is the depth (long)
 
     @property
@@ -103,7 +104,12 @@ class Gen:
     # ------------------------------------------------------------------ calls
     def callable_from(self, caller):
         """callees a body may call plainly: the failing family only from inside the family"""
-        return [f for f in self.fns if (not f.fam) or (caller is not None and caller.fam)]
+        ok = [f for f in self.fns if (not f.fam) or (caller is not None and caller.fam)]
+        if caller is not None and (caller.ret == "ref" or caller.via >= 2):
+            # a function called through a pointer runs under its caller's name (finding C08-static-through-function-pointer):
+            # under a reference function its `return v` would be taken for a reference
+            ok = [f for f in ok if f.via < 2]
+        return ok
 
     def call(self, ctx, fn=None, forbid=frozenset(), nest=1, bad_arity=False, want=None):
         """-> (sexpr, pre) : a call of `fn` from the body described by ctx; `pre` = statements that must precede it
@@ -115,11 +121,15 @@ class Gen:
             cands = self.callable_from(caller)
             if want is not None:
                 cands = [f for f in cands if f.ret in want] or cands
+            if not cands:
+                raise Skip()
             fn = r.choice(cands)
         pre = []
         fb = set(forbid) | set(fn.names) | set(ctx["statics"])
         req = len([p for p in fn.params if p[2] is None])
         n = r.randint(req, len(fn.params))
+        if bad_arity and fn.via >= 2:
+            raise Skip()
         if bad_arity:
             n = r.choice([req - 1, len(fn.params) + 1]) if req - 1 >= 1 else len(fn.params) + 1
             self.feats.add("arity-error")
@@ -149,7 +159,9 @@ class Gen:
                 d = ctx["depth"]
                 can_nest = nest > 0 and ctx["budget"][0] > 0 and (d is None or d not in fb) and not bad_arity
                 # (a possibly failing callee never below a call that may be printed: finding C01-println-retry)
-                inner = [f for f in self.callable_from(caller) if f.ret == pk and not f.meth and (fn.fam or not f.fam)] if can_nest else []
+                # (a pointer call is never an argument: the pointer variable is looked up in the half-built callee scope only -
+                #  the argument side of finding C08-args-in-callee-scope)
+                inner = [f for f in self.callable_from(caller) if f.ret == pk and f.via == 0 and (fn.fam or not f.fam)] if can_nest else []
                 if inner and r.random() < 0.25:
                     ctx["budget"][0] -= 1
                     a, pre2 = self.call(ctx, r.choice(inner), frozenset(fb), nest - 1)
@@ -192,7 +204,7 @@ class Gen:
         env = ctx["env"]
         names = [x for x in ctx["mine"] if env.get(x) in VALK]
         r.shuffle(names)
-        items = ["(%s (v %d))" % (env[x], x) for x in names[:k]] + ["(long (v %d))" % s for s in ctx["statics"]]
+        items = ["(%s (v %d))" % (env[x], x) for x in names[:k]] + ["(%s (v %d))" % (env.get(s, "long"), s) for s in ctx["statics"]]
         if not items:
             items = ["(long %s)" % self.lit()]
         return "(print %s)" % " ".join(items)
@@ -202,6 +214,11 @@ class Gen:
         if not ctx["statics"]:
             return []
         s = self.r.choice(ctx["statics"])
+        sk = ctx["env"].get(s, "long")
+        if sk == "bool":
+            return ["(asg %d (bin == (v %d) 0))" % (s, s)]
+        if sk == "str":
+            return ["(asg %d (lit str %d))" % (s, self.r.randint(0, 99))]
         return ["(asg %d (bin + (v %d) %s))" % (s, s, self.r.choice(["1", "1", "2", "10"]))]
 
     def call_stmt(self, ctx, top):
@@ -223,7 +240,7 @@ class Gen:
             # a failing callee under try: the error exit
             c, pre = self.call(ctx, r.choice(fam))
             out += pre
-            tgt = [x for x in ctx["mine"] if env.get(x) == "long"]
+            tgt = [x for x in ctx["mine"] if env.get(x) == "long" and x != ctx["depth"]]
             if tgt and r.random() < 0.5:
                 x = r.choice(tgt)
             elif top:
@@ -388,8 +405,16 @@ class Gen:
             params.append((names[j], kinds[j], d))
         statics = r.sample(STATICS, r.choice([0, 1, 1, 2])) if not fam else r.sample(STATICS, r.randint(0, 1))
         fn = Fn(fid, ret, meth, params, statics, fam)
+        if not meth and not fam and r.random() < 0.15:
+            # called through a function pointer only: integer parameters, every argument supplied, an integer result, no static
+            # (findings C08-static-through-function-pointer, C08-pointer-call-*), never under try
+            fn.via = r.choice([2, 3])
+            fn.ret = r.choice(["long", "int", "bool", "str", "void"])
+            fn.params = [(n, "long" if j == 0 else r.choice(INTK), None) for j, (n, _, _) in enumerate(params)]
+            fn.statics = []
+            self.feats.add("via-pointer:%d" % fn.via)
         # may the body run to its end (exit XEnd)?
-        fn.falls = (ret == "void" and r.random() < 0.6) or (ret in INTK and not fam and r.random() < 0.12)
+        fn.falls = (fn.ret == "void" and r.random() < 0.6) or (fn.ret in INTK and not fam and fn.via < 2 and r.random() < 0.12)
         return fn
 
     def fn_text(self, fn):
@@ -405,8 +430,9 @@ class Gen:
                "wglobals": list(self.globals), "budget": [self.branching], "counters": r.sample(COUNTERS, 3)}
         body = []
         for s in fn.statics:
-            sk = r.choice(["long", "long", "int"])
-            body.append("(decl 1 %s %d %s)" % (sk, s, self.lit()))
+            sk = r.choice(["long", "long", "long", "int", "bool", "str"])
+            init = {"bool": "(lit bool %d)" % r.randint(0, 1), "str": "(lit str %d)" % r.randint(0, 99)}.get(sk) or self.lit()
+            body.append("(decl 1 %s %d %s)" % (sk, s, init))
             env[s] = sk
             self.feats.add("static:" + sk)
         self.feats.add("statics=%d" % len(fn.statics))
@@ -436,7 +462,7 @@ class Gen:
         else:
             body.append(self.ret_stmt(ctx))
         ps = " ".join("(%d %s%s)" % (n, k, "" if dv is None else " %d" % dv) for n, k, dv in ([(0, "struct", None)] if fn.meth else []) + fn.params)
-        return "(F %d %s %d (%s) (%s))" % (fn.fid, fn.ret, 1 if fn.meth else 0, ps, " ".join(body))
+        return "(F %d %s %d (%s) (%s))" % (fn.fid, fn.ret, fn.via, ps, " ".join(body))
 
     def program(self):
         r, o = self.r, self.o
